@@ -643,6 +643,7 @@ func init() {
 			}
 			t.e.close()
 		}
+		tokensDeployments(c)
 		c.close([]string{
 			"aud:ok", "aud:err", "aud:corpus", "aud:old-panic", "claim:corpus", "claim:in-token", "claim:not-in-token", "claim:body:s", "claim:fail:err",
 			"hdr:token", "hdr:none",
@@ -653,4 +654,87 @@ func init() {
 			"e2e:product", "e2e:extra-issuer-without-discovery", "profile-x-missing", "dim:sign=hs-pem", "dim:aud=azp-number", "dim:email_verified=s-false", "dim:profile=conflict",
 		})
 	})
+}
+
+// tokensDeployments: C04 in deployments the environments above do not build, and over time.
+//   * a provider configured WITHOUT an e-mail claim (an alpha YAML that leaves `emailClaim` out — there is no default on that path):
+//     whatever the proxy makes of such a configuration, a token whose standard e-mail is marked unverified never becomes a session;
+//   * a bearer token that was accepted while valid is verified AGAIN on every presentation: once it has expired it is refused.
+func tokensDeployments(c *suiteCtx) {
+	u := defaultUser()
+	if e, err := newEnv(c, proxyCfg{EmailClaim: "<empty>", SkipJwtBearer: true, CookieRefresh: time.Hour, InjectRequest: defaultInject()}); err == nil {
+		const addr = "mallory.unverified@example.com"
+		emailSeen := func(v *respView) string {
+			for _, h := range v.Hits {
+				if x := h.Header.Get("X-Forwarded-Email"); x != "" {
+					return x
+				}
+			}
+			return ""
+		}
+		for _, ev := range []interface{}{false, "false"} {
+			e.idp.mu.Lock()
+			e.idp.claimOverride = map[string]interface{}{"email": addr, "email_verified": ev}
+			e.idp.mu.Unlock()
+			b := newBrowser()
+			lr := e.login(b, u, "/x")
+			var afterLogin *respView
+			if lr.OK {
+				afterLogin = e.do(reqSpec{Target: "/app/l", Cookie: b.cookieHeader()})
+			}
+			bearer := e.do(reqSpec{Target: "/app/b", Header: http.Header{"Authorization": {"Bearer " + e.idp.idToken(u, "")}}})
+			// refresh: a clean stored session, the refresh answer carries the unverified token
+			s := e.sessionFor(u, 2*time.Hour)
+			s.RefreshToken = fmt.Sprintf("rt-noec-%d", time.Now().UnixNano())
+			e.registerRT(s.RefreshToken, u)
+			rf := e.do(reqSpec{Target: "/app/r", Cookie: e.issueSessionCookie(s)})
+			e.idp.mu.Lock()
+			e.idp.claimOverride = nil
+			e.idp.mu.Unlock()
+			c.casen(fmt.Sprintf("c04|no-email-claim|%v", ev), "")
+			c.count("c04:no-email-claim-configured")
+			in := map[string]interface{}{"email_claim_configured": "(none: key left out of the alpha configuration)", "email_verified": ev, "email": addr}
+			for path, v := range map[string]*respView{"login": afterLogin, "bearer": bearer, "refresh": rf} {
+				if v != nil && emailSeen(v) == addr {
+					in["path"] = path
+					c.violation("C04", "the session's e-mail is an address its ID token marks UNVERIFIED (provider configured without an e-mail claim; unverified addresses not allowed) — "+path, in)
+				}
+			}
+		}
+		e.close()
+	} else {
+		c.count("c04:no-email-claim-rejected-by-validation")
+	}
+	if e, err := newEnv(c, proxyCfg{SkipJwtBearer: true, InjectRequest: defaultInject()}); err == nil {
+		exp := time.Now().Add(3 * time.Second)
+		e.idp.mu.Lock()
+		e.idp.expOverride = &exp
+		e.idp.mu.Unlock()
+		tok := e.idp.idToken(u, "")
+		e.idp.mu.Lock()
+		e.idp.expOverride = nil
+		e.idp.mu.Unlock()
+		h := http.Header{"Authorization": {"Bearer " + tok}}
+		first := e.do(reqSpec{Target: "/app/one", Header: h})
+		time.Sleep(time.Until(exp.Add(1500 * time.Millisecond)))
+		var servedLater []string
+		for _, tg := range []string{"/app/two", "/oauth2/userinfo", "/oauth2/auth"} {
+			v := e.do(reqSpec{Target: tg, Header: h})
+			if len(v.Hits) > 0 || v.Status == 200 || v.Status == 202 {
+				servedLater = append(servedLater, fmt.Sprintf("%s => %d", tg, v.Status))
+			}
+		}
+		c.casen("c04|bearer-again-after-expiry", fmt.Sprint(first.Status))
+		c.count("c04:bearer-presented-again-after-expiry")
+		if len(first.Hits) == 0 {
+			c.count("c04:bearer-first-not-served-slow") // a machine too slow to use a 3-second token: the sequel is not judged
+		} else if len(servedLater) > 0 {
+			what := "a bearer token that was accepted while valid is still accepted when presented again after it expired (the same process, " + fmt.Sprint(servedLater) + ")"
+			c.violation("C04", what, map[string]interface{}{"token_lifetime": "3s", "presented_again_after": "4.5s"})
+			c.violation("C01", "a request whose only credential is an EXPIRED bearer token was treated as authenticated: "+what, map[string]interface{}{"served": servedLater})
+		}
+		e.close()
+	} else {
+		c.violation("HARNESS", "env: "+err.Error(), nil)
+	}
 }
